@@ -133,13 +133,20 @@ def main(argv=None):
 def do_replay(pid, module, path):
     with open(path) as handle:
         artefact = json.load(handle)
-    found = module.replay(artefact['case'])
+    if artefact.get('history'):
+        found = [f for f in common.replay_history(common.unpack_history(artefact['history'])) if f[0] == artefact['signature']]
+    else:
+        found = module.replay(artefact['case'])
     if found:
         for sig, desc in found:
             print('REPRODUCED property=%s signature=%s :: %s' % (pid, sig, desc))
         return 1
     print('NOT-REPRODUCED property=%s (%s)' % (pid, path))
     return 0
+
+
+def strip(case):
+    return {k: v for k, v in case.items() if k != '_history'} if isinstance(case, dict) else case
 
 
 def finish(ctx, module, started):
@@ -149,30 +156,60 @@ def finish(ctx, module, started):
     by_sig = {}
     for sig, desc, case in ctx.violations:
         by_sig.setdefault(sig, []).append((desc, case))
-    real, known_lines = [], []
+    real, known_lines, unreproduced = [], [], []
     for sig, items in by_sig.items():
         if sig in known_sigs:
             line = 'KNOWN-FINDING: property=%s %s [%s]' % (pid, known_sigs[sig].get('what', ''), sig)
             print(line)
             known_lines.append(line)
             continue
-        # reproduce before reporting: the same case must fail twice more, bare
-        desc, case = items[0]
-        if hasattr(module, 'replay') and not os.environ.get('VERIF_NO_RECHECK'):
-            again = [module.replay(case), module.replay(case)]
+        # reproduce before reporting: the same case must fail twice more, each time in a newly forked process -
+        # first bare; if it does not fail on its own, together with the tasks its worker process had executed
+        # before it (code that keeps state between calls fails only after a particular history)
+        if not hasattr(module, 'replay') or os.environ.get('VERIF_NO_RECHECK'):
+            real.append((sig, [(d, strip(c), None) for d, c in items]))
+            continue
+        confirmed = []
+        tried = []
+        for desc, case in items:
+            bare = strip(case)
+            again = [common.in_child(module.replay, bare), common.in_child(module.replay, bare)]
             sigs = [sorted(s for s, _ in a) for a in again]
-            if sigs[0] != sigs[1] or sig not in sigs[0]:
-                raise HarnessError('violation %s did not reproduce identically on replay: %r' % (sig, sigs))
-        real.append((sig, items))
+            if sigs[0] == sigs[1] and sig in sigs[0]:
+                confirmed.append((desc, bare, None))
+                continue
+            tried.append(sigs)
+            hist = case.get('_history') if isinstance(case, dict) else None
+            if hist:
+                entries = common.history_entries(hist)
+                again = [common.replay_history(entries), common.replay_history(entries)]
+                sigs = [sorted(s for s, _ in a) for a in again]
+                tried.append(sigs)
+                if sigs[0] == sigs[1] and sig in sigs[0]:
+                    confirmed.append((desc + ' [does not fail on its own: fails after the earlier cases its worker process had run '
+                                      '(%d earlier task(s) plus the earlier cases of its own task) - state kept between calls]' % (len(entries) - 1), bare, entries))
+        if confirmed:
+            real.append((sig, confirmed))
+        else:
+            unreproduced.append((sig, tried))
+    if unreproduced and not real:
+        raise HarnessError('violation(s) %s did not reproduce identically on replay: %r' % (
+            [u[0] for u in unreproduced], unreproduced[0][1]))
+    for sig, tried in unreproduced:
+        print('NOTE property=%s signature=%s was observed but did not reproduce on replay (%r); not reported' % (pid, sig, tried),
+              file=sys.stderr)
     replay_dir = os.path.join(os.environ.get('VERIF_REPLAY_DIR') or os.path.join(VERIF, 'replays'), pid)
     for sig, items in real:
         os.makedirs(replay_dir, exist_ok=True)
-        for idx, (desc, case) in enumerate(items):
+        for idx, (desc, case, entries) in enumerate(items):
             path = os.path.join(replay_dir, '%s_%d.json' % (common.slug(sig), idx))
+            artefact = {'property': pid, 'signature': sig, 'description': desc, 'case': case,
+                        'replay_cmd': './check %s --replay %s' % (pid, path)}
+            if entries:
+                artefact['history_tasks'] = len(entries)
+                artefact['history'] = common.pack_history(entries)
             with open(path, 'w') as handle:
-                json.dump({'property': pid, 'signature': sig, 'description': desc, 'case': case,
-                           'replay_cmd': './check %s --replay %s' % (pid, path)},
-                          handle, indent=1, sort_keys=True)
+                json.dump(artefact, handle, indent=1, sort_keys=True)
             print('VIOLATION property=%s replay=%s' % (pid, path))
             print('  signature=%s :: %s' % (sig, desc))
     wall = time.time() - started
